@@ -18,7 +18,8 @@ LEVEL = 'exploration'
 RULE = ('simulated NLA / CHIC molecules of 1..5 fragments: fragment lengths 60..700 with 30-40 bp reads (gapped coverage, gaps beyond '
         'max_N_span), both strands, single fragment, conflicting bases with equal / unequal qualities, single-end; consensus requested through '
         'Molecule.deduplicate_majority(max_N_span None/50/300) and through the --consensus command line with and without source reads. '
-        'Non-trivial = molecule with gapped coverage or a base conflict; distinct = distinct (library seed, molecule, max_N_span).')
+        'Non-trivial = molecule with gapped coverage or a base conflict; distinct = distinct (library seed, molecule, max_N_span).'
+        " Plus the repository's likelihood model recomputed in 60-digit arithmetic on every conflicting position (planted 2-vs-2 quality patterns differing by 1e-8..1e-5) and max_associated_fragments with the TF tag of the source reads.")
 ASSUMPTIONS = ['base calls are only checked where every sensible likelihood agrees: unanimous observations with Q>=10 give that base; two different bases '
                'with identical quality multisets give N; one base dominating in count and in every quality gives that base',
                'the MD tag is parsed tolerantly (missing zero separators accepted): only its meaning is compared with the reference']
